@@ -1,4 +1,5 @@
 import KrroodVerif.Props.C13
+import KrroodVerif.Drive.SG
 /-!
 # C20 — krrood never extends the lifetime of user objects
 
@@ -147,6 +148,25 @@ example :
     let g2 := (addNode lifo g1 1 0 7).1
     lookup (removeNode Quirks.asIs lifo g2 w0) 7 = some ⟨1, 0, 1, 7⟩ ∧
     lookup ({ g2 with instIdx := g2.instIdx.filter (fun kw => kw.1 != w0.pid) } : SG (List Nat × Nat)) 7 = none := by
+  decide
+
+open KrroodVerif.Drive.SG in
+/-- **C20_role_witness** (test on the schema of the harness; the theorems above hold for every history, role classes and
+`Op.newrole` included): a role holds its role taker strongly BY DESIGN (`Chair.emp`), and the field contents the
+inference writes are references the user can see (`chair.manages = org`; `emp.employer = org` inferred through the role
+taker) — the registry adds nothing to that: (1) while the user holds only the chair, the Emp and the Org live on;
+(2) once the chair is dropped too, all three are reclaimed and after a sweep no SymbolGraph structure has an entry left;
+(3) a chair that is dropped while the user keeps its role taker dies alone (the role taker does not pin its role). -/
+theorem C20_role_witness :
+    let ops : List Op := [.new 0 2 0, .new 1 1 1, .newrole 2 8 2 0, .set 7 2 1, .drop 0, .drop 1]
+    (run Quirks.asIs schema lifo ops).h.live.map (·.obj) = [0, 1, 2] ∧
+    (run Quirks.asIs schema lifo (ops ++ [.drop 2, .sweep])).h.live = [] ∧
+    (run Quirks.asIs schema lifo (ops ++ [.drop 2, .sweep])).g.nodes = [] ∧
+    (run Quirks.asIs schema lifo (ops ++ [.drop 2, .sweep])).g.instIdx = [] ∧
+    (run Quirks.asIs schema lifo (ops ++ [.drop 2, .sweep])).g.relIdx = [] ∧
+    (run Quirks.asIs schema lifo (ops ++ [.drop 2, .sweep])).g.edges = [] ∧
+    (run Quirks.asIs schema lifo [.new 0 2 0, .newrole 2 8 2 0, .drop 2, .sweep]).h.live.map (·.obj) = [0] ∧
+    (run Quirks.asIs schema lifo [.new 0 2 0, .newrole 2 8 2 0, .drop 2, .sweep]).g.nodes.map (·.obj) = [0] := by
   decide
 
 end KrroodVerif.SG
